@@ -127,15 +127,9 @@ func verifyEnforcedCanonicalJSON(input []byte) error {
 			valid = false
 			return false
 		}
-		if value.Num != 0 && strings.ContainsRune(value.Raw, '.') {
-			valid = false
-			return false
-		}
-		if value.Num != 0 && strings.ContainsRune(value.Raw, 'e') {
-			valid = false
-			return false
-		}
-		if value.Num == 0 && value.Raw == "-0" {
+		// Only integer literals are allowed: no fraction, no exponent (in either
+		// case, and also when the value is zero) and no negative zero.
+		if value.Type == gjson.Number && (strings.ContainsAny(value.Raw, ".eE") || value.Raw == "-0") {
 			valid = false
 			return false
 		}
